@@ -708,21 +708,6 @@ func c02One(o *Out, t reflect.Type, doc []byte, mk func() reflect.Value, e c02En
 	if cls == "" && serr == nil && gerr == nil && c02RepeatedKeyAndSlice(t, doc) {
 		cls = "SliceSpareCapacityZeroed"
 	}
-	if cls == "" {
-		// recorded finding EmbeddedPointerToTypeInProgress: a predicate on the destination type, and on the types of
-		// what a populated destination holds in its interfaces (the document is decoded into those; found at seed 3)
-		emb := c02HasEmbeddedPtrCycle(t)
-		if !emb && populated {
-			tgValueTypes(mk().Elem(), 0, func(dt reflect.Type) {
-				if c02HasEmbeddedPtrCycle(dt) {
-					emb = true
-				}
-			})
-		}
-		if emb {
-			cls = "EmbeddedPointerToTypeInProgress"
-		}
-	}
 	if cls != "" {
 		o.known(cls, clipN(string(doc), 120)+" into "+clipN(t.String(), 160))
 		return
@@ -2056,7 +2041,7 @@ func c02EmbedCycleStratum(o *Out) {
 		return
 	}
 	r := o.rng
-	c02Stratum = "audit stratum: embedded pointer to a type in progress; candidate finding EmbeddedPointerToTypeInProgress"
+	c02Stratum = "audit stratum: embedded pointer to a type in progress (repaired in /repo: ace1a72)"
 	defer func() { c02Stratum = "" }()
 	entries := c02Entries()
 	fixed := map[reflect.Type][]string{
